@@ -69,7 +69,8 @@ ASSUMPTIONS = [
 ]
 SHARDS = {"quick": 4, "thorough": 16}
 BUDGET_S = {"quick": 90, "thorough": 700}
-FLOORS = {"soup.strings": 600, "soup.parses": 9000, "soup.searches": 12000, "soup.inband_errors": 500,
+FLOORS = {"soup.strings": 500, "soup.parses": 7000, "soup.searches": 12000, "soup.inband_errors": 400,
+          "soup.config.default": 500, "soup.config.allplugins": 500, "soup.config.dismax": 500,
           "lang.cases": 600, "lang.nontrivial": 250, "lang.agree": 600, "simple.cases": 60}
 
 VOCAB = ["alfa", "bravo", "charlie", "delta", "echo", "foxtrot", "golf", "hotel", "india", "juliet",
@@ -283,6 +284,10 @@ ATOM_CLASSES = [("op", OPS, 10), ("br", BRACKETS, 9), ("qu", QUOTES, 6), ("pu", 
                 ("ra", RANGES, 5), ("wi", WILD, 5), ("sp", SPACE, 3), ("un", UNI, 4), ("co", COMPOSITE, 8)]
 
 
+ALWAYS_CONFIGS = ("default", "or", "multi", "simple", "dismax", "allplugins", "plugins-free-dates", "sequence",
+                  "noschema")
+
+
 def gen_soup(rng, W):
     """-> (text, classes). Three generators: atom soup, nested-bracket soup, damaged well-formed expression."""
     r = rng.random()
@@ -358,8 +363,14 @@ def soup_case(ctx, rng, W):
         except UnicodeError:
             pass
     s = W.searcher
-    for name, (parser, _prof) in W.parsers.items():
+    # every string goes through the main shipped configurations and a random half of the variants
+    names = [n for n in W.parsers if n in ALWAYS_CONFIGS]
+    rest = [n for n in W.parsers if n not in ALWAYS_CONFIGS]
+    names += rng.sample(rest, (len(rest) + 1) // 2)
+    for name in names:
+        parser, _prof = W.parsers[name]
         ctx.count("soup.parses")
+        ctx.count("soup.config." + name)
         wit = {"config": name, "text": text}
         arg = text
         if as_bytes:
